@@ -239,6 +239,11 @@ func (g *c14Graph) learn(st *c14Store, ctx *c14Ctx, e ast.Expr, val bool) *c14St
 				m[k] = c14Bool(val)
 			}
 		case *ast.BinaryExpr:
+			if a := c14NonEmpty(info, x, val); a != nil {
+				if k, ok := g.lvalKey(ctx, a); ok {
+					m[k] = c14NonNil // non-empty, hence not nil
+				}
+			}
 			if x.Op == token.EQL || x.Op == token.NEQ {
 				var other ast.Expr
 				if c14ZeroLit(info, x.Y) {
